@@ -1,2 +1,27 @@
-(* C11 (statements follow) *)
-From GJS Require Import Base Regex Schema GoType Gen.
+(* C11 - allOf is conjunction and anyOf is disjunction for object schemas.
+   Statements only; every proof is `exact <lemma>`; Print Assumptions under each.
+   Proved: the anyOf validator (validator.go:416-441) accepts iff at least one branch type accepts,
+   for every list of branch types and every document.  The allOf half depends on the merge of the
+   branch schemas (mergo, schemas/model.go:269-327), which is not modelled: gen returns GUnmod for
+   allOf/anyOf schemas and C11 is decided there on the implementation against the reference semantics
+   (Spec/Valid.v: forallb / existsb over the branches) by the correspondence run.  Partial. *)
+From GJS Require Import Base Schema GoType Exec Valid ExecP.
+
+Theorem C11_anyOf_validator : forall decf raw j branches,
+  (forall bt, In bt branches -> decf bt j <> Crash /\ decf bt j <> NoFuel) ->
+  before_step decf raw j (VAnyOf branches) = if existsb (fun bt => is_ok (decf bt j)) branches then Ok tt else Err.
+Proof. exact anyof_step. Qed.
+Print Assumptions C11_anyOf_validator.
+
+(* the reference semantics the implementation is compared with *)
+Theorem C11_spec : forall fmt_ok defs f c props addl af items allof anyof j,
+  c_ref c = None ->
+  valid fmt_ok defs (S f) (Sch c props addl af items allof anyof) j = true ->
+  forallb (fun b => valid fmt_ok defs f b j) allof = true /\
+  (anyof = [] \/ existsb (fun b => valid fmt_ok defs f b j) anyof = true).
+Proof.
+  intros fmt_ok defs f c props addl af items allof anyof j Hr H. cbn [valid s_con s_all_of s_any_of] in H. rewrite Hr in H.
+  repeat (apply andb_true_iff in H; destruct H as [H ?]).
+  split; [assumption|]. destruct anyof; [left; reflexivity|right; assumption].
+Qed.
+Print Assumptions C11_spec.
